@@ -400,6 +400,61 @@ func runC07(env *lib.Env, rep *lib.Report) {
 		}
 		rep.Bounds["large BIGINT family"] = fmt.Sprintf("%d one- and two-row tables over values around 2^52..2^53 (both signs), AVG with and without GROUP BY", len(sets))
 	}
+	// many grouping columns: a table of six columns, every pair and triple of rows that agree everywhere except in one
+	// (or two) columns, grouped by 3..6 columns in two orders (rows fall into one group only if all grouping values
+	// are equal - also the fifth and the sixth)
+	if env.Shard == 3%env.NShards {
+		base := []any{int64(1), int64(2), "x", true, int64(5), int64(6)}
+		alt := []any{int64(9), int64(8), "y", false, int64(7), int64(4)}
+		cols6 := []mCol{{"c1", "int"}, {"c2", "bigint"}, {"c3", "varchar"}, {"c4", "boolean"}, {"c5", "int"}, {"c6", "int"}}
+		var sets [][][]any
+		for d1 := 0; d1 < 6; d1++ {
+			r2 := append([]any{}, base...)
+			r2[d1] = alt[d1]
+			sets = append(sets, [][]any{base, r2}, [][]any{base, r2, base})
+			for d2 := d1 + 1; d2 < 6; d2++ {
+				r3 := append([]any{}, base...)
+				r3[d2] = alt[d2]
+				sets = append(sets, [][]any{base, r2, r3}, [][]any{r3, base, r2, r3})
+			}
+		}
+		var gq []*qQuery
+		for n := 3; n <= 6; n++ {
+			for _, rev := range []bool{false, true} {
+				var items []qItem
+				var gb []qRef
+				for i := 0; i < n; i++ {
+					k := i
+					if rev {
+						k = 5 - i
+					}
+					name := fmt.Sprintf("c%d", k+1)
+					items = append(items, qItem{kind: "col", col: qRef{"", name}})
+					gb = append(gb, qRef{"", name})
+				}
+				items = append(items, qItem{kind: "count*"})
+				gq = append(gq, &qQuery{items: items, from: []qJoin{{table: "t6"}}, groupBy: gb, limit: -1, offset: -1})
+				// the same without an aggregate, and with the count in front
+				gq = append(gq, &qQuery{items: items[:n], from: []qJoin{{table: "t6"}}, groupBy: gb, limit: -1, offset: -1})
+				gq = append(gq, &qQuery{items: append([]qItem{{kind: "count", col: qRef{"", "c1"}}}, items[:n]...), from: []qJoin{{table: "t6"}}, groupBy: gb, limit: -1, offset: -1})
+			}
+		}
+		for _, rows := range sets {
+			rows := rows
+			worlds++
+			x := lib.RunOnce(func(c *lib.Ctx) {
+				qw := newQWorld(c, []*qTable{{name: "t6", cols: cols6, rows: rows}})
+				defer qw.w.destroy()
+				for _, q := range gq {
+					r.check(qw, q, "group-by/many-columns", "")
+				}
+			}, nil)
+			if x.Fail != nil {
+				rep.AddFailure(x.Fail)
+			}
+		}
+		rep.Bounds["many grouping columns"] = fmt.Sprintf("%d tables of 2..4 rows over six columns (rows differing in one or two columns), %d queries grouping by 3..6 columns", len(sets), len(gq))
+	}
 	// grouping by a BOOLEAN and by a BIGINT column (NULLs included): every multiset of <= 3 rows over
 	// f in {true, false, NULL} x g in {1, 2^40} in every row order
 	if env.Shard == 2%env.NShards {
